@@ -501,10 +501,25 @@ func ruleHandshakeTable(c *Ctx) {
 	// the printed value is the line
 	printed := false
 	for _, call := range callsIn(si.print.Ast) {
-		if len(call.Args) == 2 && lineVar != nil {
-			if identObj(info, call.Args[1]) == lineVar || identObj(info, p.Deref(f, call.Args[1])) == lineVar {
-				printed = true
+		if lineVar == nil {
+			continue
+		}
+		var arg ast.Expr
+		switch nm := p.CalleeName(f, call); {
+		case nm == "fmt.Printf" && len(call.Args) == 2:
+			arg = call.Args[1]
+		case nm == "fmt.Println" && len(call.Args) == 1:
+			arg = call.Args[0]
+		case nm == "fmt.Print" && len(call.Args) == 1:
+			// fmt.Print(line + "\n")
+			if be, ok := ast.Unparen(call.Args[0]).(*ast.BinaryExpr); ok && be.Op == token.ADD {
+				if s, isS := constString(info, be.Y); isS && s == "\n" {
+					arg = be.X
+				}
 			}
+		}
+		if arg != nil && (identObj(info, arg) == lineVar || identObj(info, p.Deref(f, arg)) == lineVar) {
+			printed = true
 		}
 	}
 	if printed {
